@@ -231,6 +231,9 @@ func (fx *FuncCtx) lock(st *State, mu Val, mode string, pos token.Pos) {
 		return
 	}
 	ref := mu.L.Ref
+	// reachability of this lock before the monitor's assumptions are added
+	pre := fx.canary(st, fmt.Sprintf("prelock#%d", st.lockCount), pos)
+	pre.PreOnly = true
 	// havoc guarded state of this object
 	lastView := copyMap(st.heap)
 	fx.bumpTop(st)
@@ -240,7 +243,7 @@ func (fx *FuncCtx) lock(st *State, mu Val, mode string, pos token.Pos) {
 	fx.inhaleInvariants(st, nt, ref)
 	fx.inhaleRely(st, nt, ref, lastView)
 	st.atlock = copyMap(st.heap)
-	fx.canary(st, fmt.Sprintf("lock#%d", st.lockCount), pos)
+	fx.canary(st, fmt.Sprintf("lock#%d", st.lockCount), pos).Pre = pre
 	lenv := fx.localsEnv(st, st.heap, map[string]string{})
 	fx.runGhost(st, "lock", lenv, pos)
 }
